@@ -293,7 +293,9 @@ func decodeStructValueSlice(field reflect.Value, fieldType reflect.StructField, 
 		/* Blank-separated lists may be folded and padded: split on any run
 		 * of blanks, and an empty value has no elements. */
 		els = strings.Fields(value)
-	} else {
+	} else if value != "" {
+		/* (and an empty value has no elements for any other delimiter
+		 * either: Split would return one empty element) */
 		els = strings.Split(value, delim)
 	}
 
